@@ -13,6 +13,7 @@ import (
 	"go/types"
 	"os"
 	"path/filepath"
+	"sort"
 	"strings"
 )
 
@@ -27,11 +28,20 @@ type fn struct {
 	hasLoop   bool
 	local     bool // can panic locally
 	usesFloat bool // mentions float64/float32: placed in a separate module importing Go/Float.lean
-	callees   map[*types.Func]bool
-	gvars     map[*types.Var]bool
-	skip      string
-	lines     []string
-	writes    []string // package-level vars written (effects table)
+	// text: the function uses (or calls a function that uses) one of the text-layer constructs
+	// introduced for the byte-string emitters (cap, copy, make with a run-time size, slices of byte
+	// arrays, string concatenation, unsafe.String, foreign error values, unmodelled calls). Such
+	// functions are placed in separate <File>Text modules so that the modules the existing proofs
+	// import keep their text byte for byte.
+	text       bool
+	unmodelled []string // foreign calls replaced by `throw (Go.Panic.unmodelled …)`, in source order
+	dropped    []string // foreign calls inside a panic message (the message is not modelled)
+	okSel      map[*ast.SelectorExpr]bool
+	callees    map[*types.Func]bool
+	gvars      map[*types.Var]bool
+	skip       string
+	lines      []string
+	writes     []string // package-level vars written (effects table)
 }
 
 type gvar struct {
@@ -57,6 +67,17 @@ type tr struct {
 }
 
 var T *tr
+
+// sortedCallees lists the callees in source order, so that the reason recorded for a skipped
+// function ("calls skipped X") does not depend on map iteration order.
+func (F *fn) sortedCallees() []*types.Func {
+	var cs []*types.Func
+	for c := range F.callees {
+		cs = append(cs, c)
+	}
+	sort.Slice(cs, func(i, j int) bool { return cs[i].Pos() < cs[j].Pos() })
+	return cs
+}
 
 func die(format string, a ...any) {
 	fmt.Fprintf(os.Stderr, "go2lean: "+format+"\n", a...)
@@ -324,6 +345,9 @@ func (t *tr) analyseFn(F *fn) {
 		checkType(sig.Results().At(k).Type(), F.decl)
 	}
 	ast.Inspect(F.decl.Body, func(n ast.Node) bool {
+		if handled, descend := t.analyseText(F, n, unsupported); handled {
+			return descend
+		}
 		switch n := n.(type) {
 		case *ast.ForStmt:
 			F.hasLoop = true
@@ -512,7 +536,7 @@ func (t *tr) analyse() {
 			if F.skip != "" {
 				continue
 			}
-			for c := range F.callees {
+			for _, c := range F.sortedCallees() {
 				C := t.funcs[c]
 				if C == nil {
 					F.skip = "calls unknown " + c.Name()
@@ -548,13 +572,15 @@ func (t *tr) analyse() {
 			}
 			m := F.local || F.hasLoop
 			u := F.usesG
+			tx := F.text
 			for c := range F.callees {
 				C := t.funcs[c]
 				m = m || C.monadic
 				u = u || C.usesG
+				tx = tx || C.text
 			}
-			if m != F.monadic || u != F.usesG {
-				F.monadic, F.usesG = m, u
+			if m != F.monadic || u != F.usesG || tx != F.text {
+				F.monadic, F.usesG, F.text = m, u, tx
 				changed = true
 			}
 		}
